@@ -37,7 +37,7 @@ impl Check for C17 {
          (Linear, CubicSpline with all boundary selections incl. Periodic, Bilinear), with and without extrapolation. Oracle: the outcome of every \
          operation (Ok with result bits / Err / panic) must equal the outcome of the same operation on an interpolator freshly built for that \
          operation alone, when the history is executed (a) in order on one shared interpolator, (b) in a generated permutation, (c) split over 2..16 \
-         scoped threads sharing &interpolator, each with its own sub-order. Send + Sync of Interp1D / Interp2D over owned, view and shared storage \
+         scoped threads sharing &interpolator, each with its own sub-order, (d) in 1 of 8 histories: every thread runs the whole history 6 times in its own rotation (contention). Send + Sync of Interp1D / Interp2D over owned, view and shared storage \
          is asserted at compile time (static_c17 crate). Non-trivial: a failing operation followed by a succeeding one, >= 2 entry points, >= 2 threads."
             .into()
     }
@@ -338,6 +338,38 @@ fn run<T: Flt>(src: &mut Src, obs: &mut Obs, two_d: bool) -> Result<(), Fail> {
             obs.asserts += 1;
             if got != &expected[*k] {
                 return Err(report(&format!("on-thread-{t}-of-{nthreads}"), *k, got, &buckets[t]));
+            }
+        }
+    }
+    // (d) contention: in 1 of 8 histories every thread runs the *whole* history several times, each
+    // in its own rotation, so that the same interpolator is hit by many overlapping lookups
+    if src.chance(1, 8) {
+        obs.class("threads:hammer");
+        let rounds = 6usize;
+        let bad: Vec<Option<(usize, Outcome)>> = std::thread::scope(|sc| {
+            let hs: Vec<_> = (0..nthreads)
+                .map(|t| {
+                    let expected = &expected;
+                    sc.spawn(move || {
+                        for r in 0..rounds {
+                            for j in 0..opsr.len() {
+                                let k = (j * (2 * t + 1) + r * 7 + t) % opsr.len();
+                                let got = exec(subj, &opsr[k]);
+                                if got != expected[k] {
+                                    return Some((k, got));
+                                }
+                            }
+                        }
+                        None
+                    })
+                })
+                .collect();
+            hs.into_iter().map(|h| h.join().expect("worker thread died")).collect()
+        });
+        obs.asserts += (rounds * nops * nthreads) as u64;
+        for (t, b) in bad.into_iter().enumerate() {
+            if let Some((k, got)) = b {
+                return Err(report(&format!("under-contention-thread-{t}-of-{nthreads}"), k, &got, &[]));
             }
         }
     }
